@@ -154,6 +154,10 @@ def catalogue():
     @dev("pu_head3_unsorted", "p1kind")     # the three curve points given design point first (a curve keeps the order it was given)
     def _(wn):
         _repl(wn, "p1"); wn.add_curve("hc1", "HEAD", [(0.05, 30.0), (0.0, 40.0), (0.1, 10.0)]); wn.add_pump("p1", "R1", "J1", "HEAD", "hc1")
+    @dev("pu_two_pumps", "p1kind")     # a pump with its own speed and speed pattern FOLLOWED by a pump with the defaults
+    def _(wn):
+        _repl(wn, "p1"); wn.add_curve("hc1", "HEAD", [(0.05, 30.0)]); wn.add_pump("p1", "R1", "J1", "HEAD", "hc1", speed=0.8, pattern="pat2")
+        wn.add_pump("p1b", "R1", "J2", "POWER", 9000.0)
     @dev("pu_speed_low", "p1kind")
     def _(wn):
         _repl(wn, "p1"); wn.add_pump("p1", "R1", "J1", "POWER", 15000.0, speed=0.8)
@@ -246,6 +250,8 @@ def catalogue():
         wn.options.hydraulic.headloss = "C-M"
         for i, (n, p) in enumerate(wn.pipes()):
             p.roughness = [0.012, 0.015, 0.011, 0.02][i % 4]
+    @dev("o_user")                   # user-defined options (kept in the dictionary / JSON forms; an INP file has no place for them)
+    def _(wn): wn.options.user = {"scenario": "fire-3", "n_samples": 250, "seeds": [3, 5, 8]}
     @dev("o_pdd")
     def _(wn):
         h = wn.options.hydraulic
@@ -481,7 +487,7 @@ NAMED_PAIRS = [("o_reaction", "p_coeffs"), ("o_reaction", "t_bulk"), ("o_qual_ch
                ("o_time", "z_time0"), ("o_pdd", "z_elev0"), ("o_qual_chem", "z_source0"), ("o_energy", "z_pump_speed0")]
 
 
-NOT_IN_INP = ("j_leak", "t_leak", "r_relative", "k_junction_head", "j_leak_removed", "t_leak_removed", "pat_nowrap", "p_cv_closed", "k_time_ge", "k_clock_after", "t_mixfrac_only")      # WNTR-only: no place in the INP format
+NOT_IN_INP = ("j_leak", "t_leak", "r_relative", "k_junction_head", "j_leak_removed", "t_leak_removed", "pat_nowrap", "p_cv_closed", "k_time_ge", "k_clock_after", "t_mixfrac_only", "o_user")      # WNTR-only: no place in the INP format
 
 
 def enumerate_specs(dmax, keep=None):
